@@ -434,8 +434,66 @@ func flowRulesAs(r *Report, rule string) {
 			continue
 		}
 		var recvs, sends []string
-		var recvSite *Site
-		for _, b := range fn.Blocks {
+		var recvSite, sendTop *Site
+		// the operations of unexported flowBuffer helpers the method calls count as its own, in
+		// call order (a helper such as "hand the command over to the read queue" is part of the move)
+		var scan func(fn *ssa.Function, depth int)
+		scan = func(fn *ssa.Function, depth int) {
+			for _, b := range fn.Blocks {
+				for i, in := range b.Instrs {
+					if c, isc := in.(*ssa.Call); isc && depth < 2 {
+						if callee := c.Call.StaticCallee(); callee != nil && callee.Blocks != nil && strings.HasPrefix(FuncName(callee), "rueidis.(*flowBuffer).") && !isExportedName(callee.Name()) {
+							if _, isIface := want[callee.Name()]; !isIface {
+								ns, nr := len(sends), len(recvs)
+								scan(callee, depth+1)
+								if depth == 0 {
+									cs := Site{fn, b, i, in}
+									if len(sends) > ns {
+										sendTop = &cs
+									}
+									if len(recvs) > nr {
+										recvSite = &cs
+									}
+								}
+								continue
+							}
+						}
+					}
+					switch x := in.(type) {
+					case *ssa.UnOp:
+						if x.Op == token.ARROW {
+							if _, f, _, ok := FieldRef(chanFieldAddr(x.X)); ok {
+								recvs = append(recvs, f)
+								if depth == 0 {
+									s := Site{fn, b, i, in}
+									recvSite = &s
+								}
+							}
+						}
+					case *ssa.Select:
+						for _, st := range x.States {
+							if _, f, _, ok := FieldRef(chanFieldAddr(st.Chan)); ok {
+								recvs = append(recvs, f)
+								if depth == 0 {
+									s := Site{fn, b, i, in}
+									recvSite = &s
+								}
+							}
+						}
+					case *ssa.Send:
+						if _, f, _, ok := FieldRef(chanFieldAddr(x.Chan)); ok {
+							sends = append(sends, f)
+							if depth == 0 {
+								cs := Site{fn, b, i, in}
+								sendTop = &cs
+							}
+						}
+					}
+				}
+			}
+		}
+		scan(fn, 0)
+		for _, b := range fn.Blocks[:0] {
 			for i, in := range b.Instrs {
 				switch x := in.(type) {
 				case *ssa.UnOp:
@@ -465,15 +523,11 @@ func flowRulesAs(r *Report, rule string) {
 		r.Ob(rule, fn, "token-move", fn.Pos(), okMove, "expected receive from ["+mv[0]+"] and send to ["+mv[1]+"], found receive from ["+strings.Join(recvs, ",")+"] send to ["+strings.Join(sends, ",")+"]: every token stays on the cycle f->w->r->f")
 		if okMove && mv[0] != "" && mv[1] != "" && recvSite != nil {
 			// the send happens on every path on which the token was received
-			var sendInstr ssa.Instruction
-			for _, b := range fn.Blocks {
-				for _, in := range b.Instrs {
-					if _, ok := in.(*ssa.Send); ok {
-						sendInstr = in
-					}
-				}
+			if sendTop == nil {
+				r.Ob(rule, fn, "forward-received-token", fn.Pos(), false, "the forwarding send could not be located")
+				continue
 			}
-			ss := SiteOf(sendInstr)
+			ss := *sendTop
 			tokenPath := true
 			if sel, ok := recvSite.Instr.(*ssa.Select); ok {
 				// the send must be under the case that received the token: guard on select index == k
